@@ -23,7 +23,7 @@ def key_specs(ctx, n):
     return specs
 
 
-def stats_model(rng, T, two):
+def stats_model(rng, T, two, dead=False):
     """Small discrete model with stochastic state h (3 labels, row depends on h, choice a and the period) and, optionally, a second
     stochastic state e (2 labels) whose row depends on the choice only (so its draws are i.i.d. given the choice)."""
     vars_ = [mkvar("h", "state", "disc", 3), mkvar("a", "choice", "disc", 2)]
@@ -38,6 +38,10 @@ def stats_model(rng, T, two):
         funcs.append(mkfunc("next_e", "stoch", ["a"], state="e"))
         shocks["e"] = [[q(x) for x in gen.rand_row(rng, 2)] for _ in range(2)]
     funcs.append(mkfunc("utility", "utility", uargs, uexpr))
+    if dead:
+        # agents in the last label of h have NO admissible choice (value -inf, the reported choice is arbitrary): their states still
+        # follow the law of motion, and their draws are draws like any other
+        funcs.append(mkfunc("alive_constraint", "constraint", ["h"], ["le", var("h"), const(1)]))
     rng.shuffle(vars_)
     rng.shuffle(funcs)
     params = {"beta": q(F(1, 2)), "shocks": shocks}
@@ -51,7 +55,7 @@ def stats_specs(ctx, n):
     specs = []
     for i in range(n):
         T = rng.choice([3, 4, 5])
-        m = stats_model(rng, T, two=i % 2 == 0)
+        m = stats_model(rng, T, two=i % 2 == 0, dead=i % 4 == 1)
         N = rng.choice([4000, 6000, 8000]) if i else 24000      # one large panel: effects that grow with the agent index
         init = {v["name"]: [q(rng.randrange(v["n"])) for _ in range(N)] for v in m["vars"] if v["role"] == "state"}
         specs.append({"cid": i, "mdl": m, "init": init, "N": N, "seed": rng.randrange(10**6), "min_cell": 40})
